@@ -17,6 +17,7 @@ inductive Tk where
   | ident (name : String)
   | plus | slash | andand | barbar | lparen | rparen | comma | lbrace | rbrace
   | op (o : CondOp)
+  | text (lexeme : String)   -- a `Text` token of a recipe body
   | other (kind : String)
   deriving DecidableEq, Repr, Inhabited
 
